@@ -115,7 +115,10 @@ theorem outcomes_classified (o : InspectOutcome) :
     second pass under the same answers changes nothing (bound: 1 round).
     NOTE on the quantifier: `rt` is ANY runtime — it may answer `RuntimeError` for any number of OTHER entries of `d`,
     wherever they sort relative to the dead container's file; the statement has no hypothesis about them.  That the
-    bound survives a partial, persistent runtime failure is spelled out in `dead_removed_despite_erroring_entries`. -/
+    bound survives a partial, persistent runtime failure is spelled out in `dead_removed_despite_erroring_entries`.
+    There is NO SIZE BOUND either: `d` is any list, however many entries of running containers precede the dead ones —
+    a per-round budget of inspect calls that leaves later entries for "the next interval" falsifies this statement
+    (the harness runs a dense node: several hundred running containers' files sorting first). -/
 theorem one_round_removes_all_dead (rt : Runtime) (d : Dir) :
     (∀ e, e ∈ sweepIPDir rt d ↔ e ∈ d ∧ ¬ IsDeadIPFile rt e) ∧
     (sweepIPDir rt d).Sublist d ∧
